@@ -71,7 +71,6 @@ func checkConc(c ConcCase) pbt.Verdict {
 		v.Violations = append(v.Violations, "load: "+err.Error())
 		return v
 	}
-	alt, _ := sc.LoadProject(dir, append(raceProcs(2)[:5], sc.ProcSpec{Name: "extra", Command: "extra"}), false, 0)
 	w := world.New()
 	app.SetVerifHooks(&app.VerifHooks{
 		Commander: func(conf *types.ProcessConfig, exe string, args []string) command.Commander {
@@ -149,10 +148,17 @@ func checkConc(c ConcCase) pbt.Verdict {
 		case "scale":
 			_ = r.ScaleProcess(op.Name, op.N)
 		case "update":
+			// a freshly loaded project per request, as the REST handler and ReloadProject provide
+			d, err := os.MkdirTemp(dir, "upd-")
+			if err != nil {
+				return
+			}
+			procs := raceProcs(2)
 			if op.N%2 == 0 {
-				_, _ = r.UpdateProject(alt)
-			} else {
-				_, _ = r.UpdateProject(prj)
+				procs = append(procs[:5], sc.ProcSpec{Name: "extra", Command: "extra"})
+			}
+			if np, err := sc.LoadProject(d, procs, false, 0); err == nil {
+				_, _ = r.UpdateProject(np)
 			}
 		}
 	}
@@ -238,11 +244,10 @@ func firstLines(s string, n int) string {
 	return strings.Join(l, "\n")
 }
 
-// readOnly selects the operation vocabulary: VERIF_C20_OPS=queries restricts the campaign to
-// operations that do not change the process set (no scale / update).
-func vocabulary() []string {
+// vocabulary of operations; `all` adds the ones that change the process set.
+func vocabulary(all bool) []string {
 	base := []string{"states", "state", "info", "log", "subscribe", "projstate", "names", "start", "stop", "restart"}
-	if os.Getenv("VERIF_C20_OPS") == "all" {
+	if all {
 		base = append(base, "scale", "scale", "update")
 	}
 	return base
@@ -251,7 +256,8 @@ func vocabulary() []string {
 func genConc(t *rapid.T) ConcCase {
 	c := ConcCase{Rounds: 12, Seed: int64(pbt.Bits(t, 20))}
 	n := pbt.Range(t, 2, 4)
-	voc := vocabulary()
+	// half of the cases leave the process set alone (queries, start/stop/restart), half also scale and update
+	voc := vocabulary(pbt.Pct(t, 50))
 	for i := 0; i < n; i++ {
 		k := pbt.Pick(t, voc)
 		op := COp{Kind: k, Name: pbt.Pick(t, []string{"a", "b", "web-0", "web-1", "job", "dep", "ghost"}), N: pbt.Range(t, 0, 5)}
